@@ -1,11 +1,11 @@
-\* C14 object LTS: 12 start versions (+7 texts that are not versions) x 8 assignment values per
-\* component, closed under the assignments up to Len(full_version) <= MaxLen (quick: 7)
+\* C14 object store with two objects: every pair (obj, kept) reachable by Copy and assignments,
+\* closed up to Len(full_version) <= MaxLen (thorough: 7); CopyIndependent, KeptConsistent
 CONSTANTS
   Alphabet = {}
   MaxLen = 7
   StartStrings <- LtsStart
   AssignValues <- LtsValues
-  Emit = TRUE
+  Emit = FALSE
   DollarAnchor = FALSE
   UnicodeDigits = FALSE
   NoRollback = FALSE
@@ -14,8 +14,8 @@ CONSTANTS
 SPECIFICATION LtsSpec
 INVARIANT KeyFresh
 INVARIANT ObjConsistent
-INVARIANT ImplRefines
+INVARIANT KeptConsistent
 PROPERTY AssignOrRollback
 PROPERTY CopyIndependent
-VIEW ObjView
+VIEW PairView
 CHECK_DEADLOCK FALSE
